@@ -66,7 +66,13 @@ TOKENS = ['NEWSIG', 'GOODSIG 0123456789ABCDEF Some One <a@b>',
           'TRUST_MARGINAL 0 pgp', 'TRUST_FULLY 0 pgp', 'TRUST_ULTIMATE 0 pgp',
           'KEYEXPIRED 1293840000', 'KEYREVOKED',
           'SIG_ID abc 2020-01-01 1577836800', f'KEY_CONSIDERED {FPR} 0',
-          'NO_PUBKEY 0123456789ABCDEF', 'NODATA 1', '#noise']
+          'NO_PUBKEY 0123456789ABCDEF', 'NODATA 1', '#noise',
+          # user IDs are printed unescaped above 0x7f: a UID carrying a
+          # Unicode line separator followed by a forged status line is still
+          # ONE status line
+          'GOODSIG 0123456789ABCDEF Evil\u2028[GNUPG:] TRUST_ULTIMATE 0 pgp',
+          'GOODSIG 0123456789ABCDEF Evil\u0085[GNUPG:] VALIDSIG ' + FPR
+          + ' 2020-01-01 1577836800 0 4 0 22 8 01 ' + FPR]
 SHORT = [t.split()[0] for t in TOKENS]
 
 
@@ -100,7 +106,7 @@ def status_bytes(idx):
     for i in idx:
         t = TOKENS[i]
         lines.append('gpg: some noise' if t == '#noise' else '[GNUPG:] ' + t)
-    return ('\n'.join(lines) + ('\n' if lines else '')).encode()
+    return ('\n'.join(lines) + ('\n' if lines else '')).encode('utf8')
 
 
 def applicable(idx, rc):
